@@ -18,7 +18,10 @@ import (
 	"verifharness/lib"
 )
 
-func init() { register("c15", checkC15) }
+// The check runs in a child process (xfInChild): the alias family serves the package's own InMemHandler inside the process, and a
+// panic in one of the server's goroutines (seeded defects C15_c, C15_g made FSETSTAT reach the handler with a garbled size) would
+// otherwise take the findings of the other families with it.
+func init() { register("c15", func(c *lib.Ctx) { xfInChild(c, "c15", checkC15) }) }
 
 // one global logical clock for call, stamp and return instants
 type c15Clock struct{ n int64 }
@@ -615,8 +618,8 @@ func checkC15(c *lib.Ctx) {
 			}
 			cfgs = append(cfgs, cfg)
 		}
-		aliases = c15AliasCfgs(c) // (drawn after the histories above: their sequence of random choices is unchanged)
-		defer func() { c15Aliases(c, aliases) }()
+		aliases = c15AliasCfgs(c)                                      // (drawn after the histories above: their sequence of random choices is unchanged)
+		defer func() { lib.CheckpointNow(); c15Aliases(c, aliases) }() // the findings so far survive a death of the process in the alias family
 	}
 	var lines []string
 	var keep []c15Cfg
